@@ -200,7 +200,7 @@ def run(ctx):
         "with clones and explicit ids, followed by further mutations on either side. After each copy: faithfulness oracle on the implementation and "
         "source-unchanged; after every step: all trees equal the model's (independence). non-trivial = history >= 4 ops; distinct by content"
     )
-    ctx.budget_s = 900 if ctx.thorough else 100
+    ctx.budget_s = ctx.budget(900, 100)
     for c in CORPUS:
         fails, steps = _hist.run_log(ctx, c["cfg"], c["log"], judge)
         out.evaluations += len(c["log"])
